@@ -366,7 +366,7 @@ func dominatesDeep(a, b ssa.Instruction, d int) bool {
 		return false
 	}
 	if p.transparent[b.Parent()] {
-		sites := p.sitesOf(b.Parent())
+		sites := p.scopedSitesOf(b.Parent())
 		if len(sites) == 0 {
 			return false
 		}
@@ -383,7 +383,7 @@ func dominatesDeep(a, b ssa.Instruction, d int) bool {
 				return false
 			}
 		}
-		for _, s := range p.sitesOf(a.Parent()) {
+		for _, s := range p.scopedSitesOf(a.Parent()) {
 			if dominatesDeep(s, b, d+1) {
 				return true
 			}
@@ -493,6 +493,25 @@ func (p *Prog) sitesOf(fn *ssa.Function) []*ssa.Call {
 	s := p.StaticCallSites(fn)
 	siteCache[fn] = s
 	return s
+}
+
+// scopedSitesOf: the call sites of fn reached from the anchor under analysis
+// (all of them when no scope is declared or none lies in it).
+func (p *Prog) scopedSitesOf(fn *ssa.Function) []*ssa.Call {
+	sites := p.sitesOf(fn)
+	if Scope == nil {
+		return sites
+	}
+	var scoped []*ssa.Call
+	for _, s := range sites {
+		if p.inScope(s) {
+			scoped = append(scoped, s)
+		}
+	}
+	if len(scoped) > 0 {
+		return scoped
+	}
+	return sites
 }
 
 // returnsOf lists the return instructions of fn.
